@@ -71,7 +71,7 @@ type explorer struct {
 	cnt map[string]int
 }
 
-func (x *explorer) count(c string) { x.r.Class(c) }
+func (x *explorer) count(c string) { x.r.Class(c); x.r.Case(c) }
 
 // observe decodes the stored record of chain id and names it by the request content it equals.
 func (x *explorer) observe(m map[string]string, id uint64) string {
@@ -275,8 +275,10 @@ func (x *explorer) step(s state, evn string) (state, bool) {
 
 func main() {
 	r := ev.Start("C35", "model_checking")
-	r.Require("registered", "updated", "removed", "forged-request-rejected", "register-request-rejected", "update-request-rejected",
-		"quit-request-rejected", "approval-round-rejected")
+	if r.ReplayPath == "" {
+		r.Require("registered", "updated", "removed", "forged-request-rejected", "register-request-rejected", "update-request-rejected",
+			"quit-request-rejected", "approval-round-rejected")
+	}
 	polyenv.InstallHeightLedger()
 	e := gov.NewEnv(4)
 	polyenv.Setup(0, e.Vals)
@@ -301,6 +303,25 @@ func main() {
 		r.HarnessError("map-backed world diverges from the leveldb-backed polyenv world: %s", diff)
 	}
 	init := state{D: gw.Dump(), M: model{C: map[uint64]*chainM{1: {}, 2: {}}}}
+	if r.ReplayPath != "" { // re-execute one recorded operation list
+		var d struct {
+			Ops []string `json:"ops"`
+		}
+		if err := r.LoadReplay(&d); err != nil {
+			r.HarnessError("replay: %v", err)
+		}
+		s := init
+		for i, op := range d.Ops {
+			n, _ := x.step(s, op)
+			for _, v := range n.last {
+				v.detail["ops"] = d.Ops[:i+1]
+				r.Violation(v.key, v.detail)
+			}
+			s = n
+		}
+		r.Finish(map[string]any{"rule": "replay of one recorded operation list", "states": len(d.Ops) + 1, "transitions": len(d.Ops),
+			"traces_validated_against_impl": len(d.Ops), "vacuity_guard": "off (replay)"})
+	}
 	depth := r.QT(9, 12)
 	st := mc.BFS(mc.Config[state]{
 		Init: []state{init}, Events: x.events, Step: x.step,
